@@ -126,6 +126,15 @@ fn fn_case_in(tt: TT, n: usize, w: usize, store: usize) -> Vec<(String, String)>
             b.fix_import();
         } else if store == 4 {
             b.fix_import();
+        } else if store == 5 {
+            // every restriction of the function (and of each result by the next variable) is made first: the queries below
+            // then also read the bookkeeping of nodes that `restrict` created
+            for v in 0..n {
+                for val in [false, true] {
+                    let r = b.restrict(h, Var(v), val);
+                    let _ = b.restrict(r, Var((v + 1) % n), !val);
+                }
+            }
         }
         (b, h)
     });
@@ -470,7 +479,7 @@ fn structural_cube_checks(b: &Bdd, h: usize, nvars: usize, rc: &[(u128, u128, us
     }
 }
 
-pub const STORE_KINDS: [&str; 5] = ["plain store", "store with a sender whose receiver lives", "store with a sender whose receiver went away after the variables were made", "store exported, imported and repaired before the queries", "store repaired (fix_import) before the queries"];
+pub const STORE_KINDS: [&str; 6] = ["plain store", "store with a sender whose receiver lives", "store with a sender whose receiver went away after the variables were made", "store exported, imported and repaired before the queries", "store repaired (fix_import) before the queries", "store in which every restriction of the function was made before the queries"];
 
 /// one deep formula, built in one of three kinds of store, every node queried
 pub fn deep_fn_case(kind: usize, n: usize, store: usize) -> Vec<(String, String)> {
@@ -757,20 +766,20 @@ pub fn run_c13(run: &Run) {
     // but depend on different variables need four)
     {
         for n in [3usize, 4] {
-            let total = (full(n) as u64 + 1) * 2;
+            let total = (full(n) as u64 + 1) * 3;
             let res = run.par_family(
-                &format!("all functions of {} variables in stores whose bookkeeping was rebuilt by the repair step (re-imported / live), every node queried", n),
+                &format!("all functions of {} variables in stores whose bookkeeping was rebuilt by the repair step (re-imported / live) or extended by restrictions, every node queried", n),
                 total,
                 || 0u64,
                 |st, k| {
-                    let tt = (k / 2) as TT;
-                    let store = 3 + (k % 2) as usize;
+                    let tt = (k / 3) as TT;
+                    let store = 3 + (k % 3) as usize;
                     *st += 1;
                     for (kind, msg) in fn_case_in(tt, n, if tt % 3 == 0 { 0 } else { 5 }, store) {
                         run.violation(&kind, format!("{} (function {:#x} over {} variables, {})", msg, tt, n, STORE_KINDS[store]), json!({"type": "function", "tt": tt, "vars": n, "writer": if tt % 3 == 0 { 0 } else { 5 }, "store": store}));
                     }
                 },
-                &|k| json!({"type": "function", "tt": k / 2, "vars": n, "writer": 5, "store": 3 + k % 2}),
+                &|k| json!({"type": "function", "tt": k / 3, "vars": n, "writer": 5, "store": 3 + k % 3}),
             );
             for st in res {
                 run.add_counts(st, st * 20, st, 0);
